@@ -78,6 +78,10 @@ var prologues = map[string]string{
 	"doctype-other-meta":            `<!DOCTYPE html><html><head><meta name="viewport" content="width=device-width">`,
 	"doctype-content-without-equiv": `<!DOCTYPE html><html><head><meta name="description" content="text/html; charset=koi8-u">`,
 	"ws-doctype":                    " \n\t<!DOCTYPE html><html><head>",
+	// single tokens longer than any plausible tokenizer buffer: a licence comment, an inline script, a style sheet
+	"doctype-long-comment": "<!DOCTYPE html><!--" + strings.Repeat(" licence text, line after line.\n", 160) + "--><html><head>",
+	"doctype-long-script":  "<!DOCTYPE html><html><head><script>" + strings.Repeat("var a = '<meta charset=koi8-u>'; /* filler */\n", 140) + "</script>",
+	"doctype-long-style":   "<!DOCTYPE html><html><head><style>" + strings.Repeat("p.c { margin: 0; padding: 0 }\n", 300) + "</style>",
 }
 
 func sep(spacing string) (between, aroundEq string) {
@@ -179,6 +183,7 @@ var hostileBytes = map[string]string{
 	"tok": "a", "UP": "Q", "dq": `"`, "sq": "'", "bs": `\`, "semi": ";", "eq": "=", "comma": ",", "sp": " ", "tab": "\t",
 	"cr": "\r", "lf": "\n", "esc": "\x1b", "ff": "\x0c", "del": "\x7f", "pct": "%", "star": "*", "u8": "\xc3\xa9",
 	"cont": "\xa9", "xff": "\xff", "paren": "(", "gt": ">", "slash": "/", "colon": ":", "lt": "<", "at": "@", "qm": "?", "lbr": "[", "rbr": "]",
+	"inj": ";charset=latin1", // a second parameter smuggled in through the label
 }
 
 func renderHostile(d *metaDoc) (string, int) {
@@ -232,6 +237,11 @@ func c02Check(rep *Report, m *mimetype.MIME, err error, raw []byte, limit int64,
 	base, params, perr := mime.ParseMediaType(m.String())
 	if perr != nil {
 		rep.violate(mkViolation("C02", "unparsable", raw, limit, fmt.Sprintf("String()=%q: %v", m.String(), perr)))
+		// C15 speaks about every result string the detector synthesises: the bare type is what stands before the first ';'
+		bt := baseType(m.String())
+		if l := mimetype.Lookup(bt); l == nil || !l.Is(m.String()) || !m.Is(bt) || !mimetype.EqualsAny(m.String(), bt) {
+			rep.violate(mkViolation("C15", "result-does-not-equal-its-bare-type", raw, limit, fmt.Sprintf("String()=%q bare type %q", m.String(), bt)))
+		}
 		return
 	}
 	if !registered[base] {
@@ -293,7 +303,7 @@ func metadocsMain(args []string) int {
 	fs.Parse(args)
 	rep := newReport("metadocs")
 	reg := registeredSet()
-	var n, applicable, skipped, hostile, labelled int64
+	var n, applicable, skipped, hostile, labelled, outside int64
 	kinds := map[string]int{}
 	err := tlcVectorLines(*in, func(b []byte) {
 		var v metaVec
@@ -324,6 +334,10 @@ func metadocsMain(args []string) int {
 			lim = 3072
 		case "just-past", "cut-inside":
 			lim = int64(past)
+		}
+		if lim != 0 && int64(past) > lim {
+			outside++ // the declaration lies beyond the examined header: the statement does not apply
+			return
 		}
 		mimetype.SetLimit(uint32(lim))
 		raw := exact([]byte(doc))
@@ -365,6 +379,7 @@ func metadocsMain(args []string) int {
 	rep.Extra["declaration_applicable"] = applicable
 	rep.Extra["result_type_other_than_html_xml"] = skipped
 	rep.Extra["hostile_documents"] = hostile
+	rep.Extra["declaration_outside_the_header"] = outside
 	rep.Extra["hostile_with_charset_parameter"] = labelled
 	rep.Extra["result_types"] = kinds
 	rep.write(*out)
